@@ -77,6 +77,7 @@ package ast
 //@   requires [perm;C07] cap(*nl) > len(*nl) ==> parsley.GhostSpare(array(*nl))
 //@   ensures  [perm;C07] cap(*nl) > len(*nl) ==> parsley.GhostSpare(array(*nl))
 //@   ensures  [perm-frame;C07] forall a int :: !freshid(a) ==> parsley.GhostSpare(a) == old(parsley.GhostSpare(a))
+//@   ensures  [alt-frame;C07] forall x parsley.Node, k int :: parsley.ListArr(x) == 0 || (!freshid(parsley.ListArr(x)) && !old(parsley.GhostSpare(parsley.ListArr(x)))) ==> same(parsley.Alt(x, k), old(parsley.Alt(x, k)))
 //@   ghost_return when fresh(*nl) :: parsley.GhostSpare(array(*nl)) = true
 //@   ensures  [wf] wfList(*nl) && len(*nl) >= old(len(*nl))
 //@   ensures  [prefix;C07] forall k int :: 0 <= k && k < old(len(*nl)) ==> same((*nl)[k], old((*nl)[k]))
@@ -87,6 +88,7 @@ package ast
 //@   assigns  *nl, cells(*nl, len(*nl), cap(*nl)), parsley.GhostSpare
 //@ loop 1 (k rangeindex, v NodeList)
 //@   invariant [perm] (cap(*nl) > len(*nl) ==> parsley.GhostSpare(array(*nl))) && forall a int :: !freshid(a) ==> parsley.GhostSpare(a) == old(parsley.GhostSpare(a))
+//@   invariant [alt-frame] forall x parsley.Node, j int :: parsley.ListArr(x) == 0 || (!freshid(parsley.ListArr(x)) && !old(parsley.GhostSpare(parsley.ListArr(x)))) ==> same(parsley.Alt(x, j), old(parsley.Alt(x, j)))
 //@   invariant 0 <= k && k <= len(v)
 //@   invariant wfList(*nl) && len(*nl) >= old(len(*nl))
 //@   invariant forall j int :: 0 <= j && j < old(len(*nl)) ==> same((*nl)[j], old((*nl)[j]))
@@ -103,6 +105,7 @@ package ast
 //@   requires [perm;C07] n1 != nil && n2 != nil && parsley.ListSpare(n1) > 0 ==> parsley.GhostSpare(parsley.ListArr(n1))
 //@   ensures  [perm;C07] n1 != nil && n2 != nil && parsley.ListSpare(r) > 0 ==> parsley.GhostSpare(parsley.ListArr(r))
 //@   ensures  [perm-frame;C07] forall a int :: !freshid(a) ==> parsley.GhostSpare(a) == old(parsley.GhostSpare(a))
+//@   ensures  [alt-frame;C07] forall x parsley.Node, k int :: parsley.ListArr(x) == 0 || (!freshid(parsley.ListArr(x)) && !old(parsley.GhostSpare(parsley.ListArr(x)))) ==> same(parsley.Alt(x, k), old(parsley.Alt(x, k)))
 //@   ensures  [nil1] n1 == nil ==> same(r, n2)
 //@   ensures  [nil2] n1 != nil && n2 == nil ==> same(r, n1)
 //@   ensures  [list] n1 != nil && n2 != nil ==> typeis[NodeList](r) && parsley.NodeOK(r)
